@@ -78,7 +78,8 @@ def rules : List (String × String × List (String × String)) :=
 /-- the translated conversion methods follow the rules, class by class. -/
 theorem conv_table_eq : conv_table = rules := by decide +kernel
 
-/-- sky-side membership: the base class asks the pixel image at the converted position; points,
+/-- sky-side membership: the base class converts the region with `to_pixel`, the positions with
+`wcs.world_to_pixel` (the same route as the region: F205 repaired in b44d15d) and asks the pixel image; points,
 lines (and text, a point subclass) contain nothing, answer in the shape of the positions and honour
 the include flag; compounds combine the operands' sky-side answers and apply their own flag. -/
 theorem sky_contains_eq :
@@ -86,7 +87,7 @@ theorem sky_contains_eq :
       [("PointSkyRegion", "in_reg = False if skycoord.isscalar else np.zeros(skycoord.shape, dtype=bool) ; if self.meta.get('include', True): return in_reg else: return np.logical_not(in_reg)"),
        ("LineSkyRegion", "in_reg = False if skycoord.isscalar else np.zeros(skycoord.shape, dtype=bool) ; if self.meta.get('include', True): return in_reg else: return np.logical_not(in_reg)"),
        ("CompoundSkyRegion", "in_reg = self.operator(self.region1.contains(skycoord, wcs), self.region2.contains(skycoord, wcs)) ; if self.meta.get('include', True): return in_reg else: return np.logical_not(in_reg)"),
-       ("SkyRegion", "pixel_region = self.to_pixel(wcs) ; pixcoord = PixCoord.from_sky(skycoord, wcs) ; return pixel_region.contains(pixcoord)")] := rfl
+       ("SkyRegion", "pixel_region = self.to_pixel(wcs) ; x, y = wcs.world_to_pixel(skycoord) ; pixcoord = PixCoord(x, y) ; return pixel_region.contains(pixcoord)")] := rfl
 
 /-- in the rules, to_pixel and to_sky of every sized class are mirror images: the same SCALE/NORTH
 helper, sizes divided vs multiplied, the angle correction added vs subtracted. -/
